@@ -15,6 +15,9 @@ type Doc struct {
 	Users       []UserCfg   `json:"users,omitempty" yaml:"users,omitempty"`
 	PrefixDeny  []string    `json:"prefix_deny,omitempty" yaml:"prefix_deny,omitempty"`
 	PrefixAllow []string    `json:"prefix_allow,omitempty" yaml:"prefix_allow,omitempty"`
+	// XSpan: the deployment registers the SPAN handler type next to START (evaluator and
+	// harness only, never rendered into the file)
+	XSpan bool `json:"x_span,omitempty" yaml:"x_span,omitempty"`
 }
 
 type KeychainCfg struct {
@@ -23,7 +26,8 @@ type KeychainCfg struct {
 }
 
 type HandlerCfg struct {
-	Type int `json:"type" yaml:"type"`
+	Type    int               `json:"type" yaml:"type"`
+	Options map[string]string `json:"options,omitempty" yaml:"options,omitempty"`
 }
 
 // SecretCfg is one secret configuration (a scope).
@@ -120,6 +124,7 @@ func (d Doc) forRender() Doc {
 	for i := range c.Secrets {
 		c.Secrets[i].Prefixes = nil
 	}
+	c.XSpan = false
 	strip := func(a *AuthCfg) {
 		if a != nil {
 			a.Password = ""
